@@ -1,6 +1,7 @@
 package main
 
 import (
+	"os"
 	"context"
 	"encoding/json"
 	"errors"
@@ -192,7 +193,9 @@ func classify(err error) string {
 func call(ctx context.Context, c *command.Commander, p string, r Req) (resp Resp) {
 	defer func() {
 		if e := recover(); e != nil {
-			resp = Resp{St: "panic", Txid: -1, Code: fmt.Sprint(e)}
+			// the text of the panic is kept out of the response record (the model has no such thing); stderr keeps it
+			fmt.Fprintf(os.Stderr, "request %s panicked: %v\n", p, e)
+			resp = Resp{St: "panic", Txid: -1}
 		}
 	}()
 	params := command.Parameters{DryRun: r.Dry, IdempotencyKey: r.Ik}
